@@ -1108,6 +1108,10 @@ func (r *rpcPlanningContext) getFieldsFromFieldResolverDirective(parentNode ast.
 		return nil, fmt.Errorf("context directive argument not found")
 	}
 
+	if val.Kind != ast.ValueKindString {
+		return nil, fmt.Errorf("context directive argument must be a string, got %s", val.Kind)
+	}
+
 	fieldsString := r.definition.ValueContentString(val)
 
 	walker := astvisitor.WalkerFromPool()
